@@ -1,4 +1,4 @@
 SPECIFICATION MCSpec
-CONSTANT N = 9
+CONSTANT N = 8
 INVARIANT DefsOK
 CHECK_DEADLOCK FALSE
